@@ -221,6 +221,37 @@ def run(chk, scratch):
                     w.make_read(g.chrom, nov_mm, name=name, mapq=60, truth={"multimap": True, "class": "mmsite-secondary", "src": t.id},
                                 **dict(tail, flag=tail["flag"] | 256))
                 n_mmsite += 1
+        # genes ALL of whose reads are tied between two isoforms of that one gene (several isoforms, one gene) with a primary record among the tied
+        # alignments: (a) two primary records under one read name, (b) a truncated primary record compatible with both isoforms plus a
+        # secondary full copy of one; tied reads are flagged as multi-mapped, so no transcript model may be built at such a gene
+        from vlib.world import Gene as _G, Transcript as _T
+        tie_only = []
+        for k_, kind_ in enumerate(("two-primary", "ambiguous-primary")):
+            chrom_ = w.chrom_order[k_ % len(w.chrom_order)]
+            p_ = world2._free_pos(w, chrom_, 3000)
+            if p_ + 6000 > w.chrom_len(chrom_):
+                continue
+            strand_ = "-+"[k_ % 2]        # (b) needs the 3' end on the side of the shared exons
+            e_ = [(p_, p_ + 300), (p_ + 800, p_ + 1000), (p_ + 1500, p_ + 1700), (p_ + 2300, p_ + 2550), (p_ + 3100, p_ + 3400), (p_ + 4000, p_ + 4400)]
+            g_ = _G("TIE%d" % (k_ + 1), chrom_, strand_)
+            g_.transcripts.append(_T(g_.id + ".t1", g_.id, chrom_, strand_, [e_[0], e_[1], e_[3], e_[4], e_[5]], True, "tie-only"))
+            g_.transcripts.append(_T(g_.id + ".t2", g_.id, chrom_, strand_, [e_[0], e_[2], e_[3], e_[4], e_[5]], True, "tie-only"))
+            for t_ in g_.transcripts:
+                for intr in t_.introns:
+                    w.plant_sites(chrom_, intr, strand_)
+            w.genes.append(g_)
+            tie_only.append(g_)
+            tail_ = {"polya": 30} if strand_ == "+" else {"polyt": 30}
+            fl_ = 0 if strand_ == "+" else 16
+            for j_ in range(8):
+                nm_ = "mmtie%d_%d" % (k_, j_)
+                if kind_ == "two-primary":
+                    w.make_read(chrom_, list(g_.transcripts[0].exons), name=nm_, flag=fl_, mapq=60, truth={"multimap": True, "class": "tie-two-primary"}, **tail_)
+                    w.make_read(chrom_, list(g_.transcripts[1].exons), name=nm_, flag=fl_, mapq=60, truth={"multimap": True, "class": "tie-two-primary"}, **tail_)
+                else:
+                    part_ = [(e_[3][0] + 10, e_[3][1]), e_[4], e_[5]]
+                    w.make_read(chrom_, part_, name=nm_, flag=fl_, mapq=60, truth={"multimap": True, "class": "tie-ambiguous-primary"}, **tail_)
+                    w.make_read(chrom_, list(g_.transcripts[0].exons), name=nm_, flag=fl_ | 256, mapq=60, truth={"multimap": True, "class": "tie-ambiguous-primary"}, **tail_)
         chk.count("loci_with_a_site_seen_only_in_multimapped_reads", n_mmsite)
         pipeline.write_world(w, d0)
         variants = [("v0", d0, [])]
@@ -344,6 +375,17 @@ def run(chk, scratch):
                 if single or prim_only:
                     counted_introns[b.chr] |= set(parse.introns_of(b.exons()))
             mdl = o.models()
+            for g_ in tie_only:
+                both = [rid for rid, rr in recs.items() if rid.startswith("mmtie") and any(c == g_.chrom and e and e[0][0] >= g_.start - 50 and e[-1][1] <= g_.end + 50 for c, e, i, t in rr)]
+                amb = [rid for rid in both if all(t.split("/gene:")[0] == "ambiguous" for c, e, i, t in recs[rid])]
+                chk.count("reads_tied_between_isoforms_of_one_gene", len(amb))
+                if len(amb) < len(both):
+                    chk.count("tie_only_gene_reads_not_reported_as_tied", len(both) - len(amb))
+                    continue
+                for tid, t in mdl.transcripts.items():
+                    if t["chr"] == g_.chrom and min(e[0] for e in t["exons"]) <= g_.end and max(e[1] for e in t["exons"]) >= g_.start:
+                        chk.violation("model-built-from-tied-reads", "%s: %s is reported at gene %s, all of whose reads are tied between its two isoforms and flagged "
+                                      "ambiguous (tied reads are ignored by transcript construction)" % (desc, tid, g_.id), wit)
             ref_ids = set(t.id for t in w.all_transcripts())
             for tid, t in mdl.transcripts.items():
                 if tid in ref_ids:
